@@ -8,13 +8,14 @@ namespace Abverif.Comp
 open Spec
 
 /-- between steps: no failed main is pending, and a pending clean end means the future is already complete -/
-structure PolInv (done : Option Bool) (k : Core) : Prop where
+structure PolInv (done : Option Bool) (stopping : Bool) (k : Core) : Prop where
   raise : k.pendingRaise = false
   clean : k.pendingClean = true → done.isSome = true
+  stop : stopping = true → k.stopped = true
 
 structure PolOK (c : Conf) (k : Core) (r : State × List Obs) : Prop where
   chk : specAll chkPolarity finTrue c k false r.2 = true
-  inv : PolInv r.1.done (feedAll c k r.2)
+  inv : PolInv r.1.done r.1.stopping (feedAll c k r.2)
 
 theorem PolOK.wrap {c : Conf} {k k1 : Core} {r : State × List Obs} {out pre post : List Obs}
     (h : PolOK c k1 r) (hout : out = pre ++ r.2 ++ post) (hpre : pre.all Obs.quiet = true)
@@ -27,42 +28,50 @@ theorem PolOK.wrap {c : Conf} {k k1 : Core} {r : State × List Obs} {out pre pos
       specAll_quiet _ chkPolarity_ad c k pre ((all_quiet_iff _).mp hpre),
       specAll_quiet _ chkPolarity_ad c _ post (fun o ho => neutral_quiet o (hpn o ho))]
     rfl
-  · show PolInv r.1.done (feedAll c k (pre ++ r.2 ++ post))
+  · show PolInv r.1.done r.1.stopping (feedAll c k (pre ++ r.2 ++ post))
     rw [feedAll_append, feedAll_append, hk, feedAll_neutral _ _ _ hpn]
     exact h.inv
 
-theorem PolOK.stutter {c : Conf} {s : State} {k : Core} (h : PolInv s.done k) : PolOK c k (s, []) :=
+theorem PolOK.stutter {c : Conf} {s : State} {k : Core} (h : PolInv s.done s.stopping k) : PolOK c k (s, []) :=
   ⟨rfl, h⟩
 
-theorem att_pol {c : Conf} {done : Option Bool} {k : Core} (hd : k.done = done) (hp : PolInv done k)
+theorem att_pol {c : Conf} {done : Option Bool} {st : Bool} {k : Core} (hd : k.done = done) (hp : PolInv done st k)
     (i : Nat) (w t : Q) :
-    specAll chkPolarity finTrue c k false [.att i w t] = true ∧ PolInv done (k.feed c (.att i w t)) := by
+    specAll chkPolarity finTrue c k false [.att i w t] = true ∧ PolInv done st (k.feed c (.att i w t)) := by
   constructor
   · simp only [specAll, finTrue, Bool.and_true, chkPolarity, hp.raise, Bool.false_or]
     cases hc : k.pendingClean with
     | false => simp
     | true => have := hp.clean hc; rw [← hd] at this; simp [this]
-  · exact ⟨rfl, fun h => by simp [Core.feed] at h⟩
+  · exact ⟨rfl, fun h => by simp [Core.feed] at h, hp.stop⟩
 
-theorem attempt_pol {c : Conf} {s : State} {k : Core} (hd : k.done = s.done) (hp : PolInv s.done k)
+theorem attempt_pol {c : Conf} {s : State} {k : Core} (hd : k.done = s.done) (hp : PolInv s.done s.stopping k)
     (i : Nat) (w : Q) : PolOK c k (attemptConnect i w s) := by
   have := att_pol (c := c) hd hp i w s.now
   exact ⟨this.1, by simpa [attemptConnect, feedAll] using this.2⟩
 
-theorem tc_pol {c : Conf} {s : State} {k : Core} (h : RelM c s k) (heq : c.resetOnJoin = s.cfg.hasMain)
-    (hp : PolInv s.done k) : PolOK c k (transportCheck s) := by
+theorem tc_pol {c : Conf} {s : State} {k : Core} (h : RelM c s k)
+    (hp : PolInv s.done s.stopping k) : PolOK c k (transportCheck s) := by
   have hT := h.t
   have hcs := tc_cases s
   generalize transportCheck s = r at hcs ⊢
   cases hcs with
+  | stopped hs =>
+    unfold stopCheck
+    cases hd : s.done with
+    | none =>
+      constructor
+      · simp [specAll, finTrue, chkPolarity, hp.stop hs]
+      · exact ⟨rfl, fun h => by simp [feedAll, Core.feed] at h, fun _ => by simpa [feedAll, Core.feed] using hp.stop hs⟩
+    | some b => exact ⟨rfl, by simpa [feedAll, hd] using hp⟩
   | giveUp hany =>
     unfold Comp.setDone
     cases hd : s.done with
     | none =>
       rw [hd] at hT
       constructor
-      · simp [specAll, finTrue, chkPolarity, anyElig_eq hT heq, hany]
-      · exact ⟨rfl, fun h => by simp [feedAll, Core.feed] at h⟩
+      · simp [specAll, finTrue, chkPolarity, anyElig_eq hT, hany]
+      · exact ⟨rfl, fun h => by simp [feedAll, Core.feed] at h, fun h => by simpa [feedAll, Core.feed] using hp.stop h⟩
     | some b =>
       constructor
       · simp [specAll, finTrue, chkPolarity]
@@ -71,69 +80,66 @@ theorem tc_pol {c : Conf} {s : State} {k : Core} (h : RelM c s k) (heq : c.reset
   | now i t t' d hpick hget hcan hnd hpos =>
     exact attempt_pol (s := tcState s i t t') (by simpa [tcState] using hT.done_eq) (by simpa [tcState] using hp) i _
 
-theorem failRetry_pol {c : Conf} {s : State} {k : Core} (h : RelM c s k) (heq : c.resetOnJoin = s.cfg.hasMain)
-    (hp : PolInv s.done k) (i : Nat) (f : Bool) : PolOK c k (failRetry i f s) := by
+theorem failRetry_pol {c : Conf} {s : State} {k : Core} (h : RelM c s k)
+    (hp : PolInv s.done s.stopping k) (i : Nat) (f : Bool) : PolOK c k (failRetry i f s) := by
   unfold failRetry
   split
   · have h1 : RelM c { s with trs := updAt Tr.failed s.trs i } (k.feed c (.fatal i)) :=
       ⟨h.t.fatal i, by simpa [Core.feed] using h.cur⟩
-    have hp1 : PolInv s.done (k.feed c (.fatal i)) := ⟨hp.raise, hp.clean⟩
-    exact (tc_pol h1 heq hp1).wrap (pre := [.fatal i]) (post := []) (k := k) (by simp) (by simp [Obs.quiet])
+    have hp1 : PolInv s.done s.stopping (k.feed c (.fatal i)) := ⟨hp.raise, hp.clean, hp.stop⟩
+    exact (tc_pol h1 hp1).wrap (pre := [.fatal i]) (post := []) (k := k) (by simp) (by simp [Obs.quiet])
       (by simp [feedAll]) (by simp)
-  · exact tc_pol h heq hp
+  · exact tc_pol h hp
 
 /-- `session_done` right after a clean end was observed -/
-theorem sessionDone_pol {c : Conf} {s : State} {k : Core} (h : RelM c s k) (heq : c.resetOnJoin = s.cfg.hasMain)
-    (hr : k.pendingRaise = false) (hc : k.pendingClean = true) (i : Nat) (f : Bool) :
+theorem sessionDone_pol {c : Conf} {s : State} {k : Core} (h : RelM c s k)
+    (hr : k.pendingRaise = false) (hc : k.pendingClean = true) (hst : s.stopping = true → k.stopped = true)
+    (i : Nat) (f : Bool) :
     PolOK c k (sessionDone i f s) := by
   unfold sessionDone
   cases hd : s.done with
   | none =>
     constructor
     · simp [specAll, finTrue, chkPolarity, hc]
-    · exact ⟨rfl, fun h => by simp [feedAll, Core.feed] at h⟩
+    · exact ⟨rfl, fun h => by simp [feedAll, Core.feed] at h, fun h => by simpa [feedAll, Core.feed] using hst h⟩
   | some b =>
     simp only []
-    have hp : PolInv s.done k := ⟨hr, fun _ => by simp [hd]⟩
+    have hp : PolInv s.done s.stopping k := ⟨hr, fun _ => by simp [hd], hst⟩
     split
-    · exact (failRetry_pol h heq hp i f).wrap (pre := [.lateDone true]) (post := []) (k := k) (by simp)
+    · exact (failRetry_pol h hp i f).wrap (pre := [.lateDone true]) (post := []) (k := k) (by simp)
         (by simp [Obs.quiet]) (by simp [feedAll]) (by simp)
     · exact ⟨by simp [specAll, finTrue, chkPolarity], by simpa [feedAll, hd] using hp⟩
 
-theorem joinOn_polinv {s : State} {k : Core} {c : Conf} (hp : PolInv s.done k) (i n : Nat) :
-    PolInv (joinOn i { s with nsess := n }).done (k.feed c (.join i)) := by
-  rw [joinOn_done]
-  have e1 : (k.feed c (.join i)).pendingRaise = k.pendingRaise := by simp only [Core.feed]; split <;> rfl
-  have e2 : (k.feed c (.join i)).pendingClean = k.pendingClean := by simp only [Core.feed]; split <;> rfl
-  exact ⟨by rw [e1]; exact hp.raise, by rw [e2]; exact hp.clean⟩
+theorem joinOn_polinv {s : State} {k : Core} {c : Conf} (hp : PolInv s.done s.stopping k) (i n : Nat) :
+    PolInv (joinOn i { s with nsess := n }).done (joinOn i { s with nsess := n }).stopping (k.feed c (.join i)) :=
+  ⟨hp.raise, hp.clean, hp.stop⟩
 
-theorem onOutcome_pol {c : Conf} {s : State} {k : Core} (h : Rel c s k) (heq : c.resetOnJoin = s.cfg.hasMain)
-    (hp : PolInv s.done k) (i : Nat) (hph : s.phase = .connecting i) (o : Outcome) (f : Bool)
+theorem onOutcome_pol {c : Conf} {s : State} {k : Core} (h : Rel c s k)
+    (hp : PolInv s.done s.stopping k) (i : Nat) (hph : s.phase = .connecting i) (o : Outcome) (f : Bool)
     (hno : o ≠ .mainRaises) : PolOK c k (onOutcome i o f s) := by
   obtain ⟨_, hcur⟩ := phase_conn h (Or.inl hph)
   have hM : RelM c s k := h.toM hcur
   have hMn : ∀ n, RelM c { s with nsess := n } k := fun n => ⟨hM.t, hM.cur⟩
   have hJ : ∀ n, RelM c (joinOn i { s with nsess := n }) (k.feed c (.join i)) := fun n => hM.join i n
-  have hpJ : ∀ n, PolInv (joinOn i { s with nsess := n }).done (k.feed c (.join i)) := fun n => joinOn_polinv hp i n
-  have ecfg : ∀ n, (joinOn i { s with nsess := n }).cfg = s.cfg := fun n => by rw [joinOn_cfg]
-  have heqJ : ∀ n, c.resetOnJoin = (joinOn i { s with nsess := n }).cfg.hasMain := fun n => by rw [ecfg]; exact heq
+  have hpJ : ∀ n, PolInv (joinOn i { s with nsess := n }).done (joinOn i { s with nsess := n }).stopping
+      (k.feed c (.join i)) := fun n => joinOn_polinv hp i n
   have hrJ : (k.feed c (.join i)).pendingRaise = false := (hpJ 0).raise
   cases o with
   | refused =>
     have h1 : RelM c { s with trs := updAt (fun t => { t with failures := t.failures + (if s.cfg.aio then 2 else 1) }) s.trs i } k :=
       ⟨hM.t.updAt_congr i _ (fun _ => rfl) (fun _ => rfl) (fun _ => rfl) (fun _ => rfl), hM.cur⟩
-    exact (failRetry_pol h1 heq hp i f).wrap (pre := [.fail i]) (post := []) (by simp [onOutcome])
+    exact (failRetry_pol h1 hp i f).wrap (pre := [.fail i]) (post := []) (by simp [onOutcome])
       (by simp [Obs.quiet]) (by simp [feedAll]) (by simp)
   | hsFail =>
-    exact (failRetry_pol hM heq hp i f).wrap (pre := [.fail i]) (post := []) (by simp [onOutcome])
+    exact (failRetry_pol hM hp i f).wrap (pre := [.fail i]) (post := []) (by simp [onOutcome])
       (by simp [Obs.quiet]) (by simp [feedAll]) (by simp)
   | abort =>
-    exact (failRetry_pol (hMn (s.nsess + 1)) heq hp i f).wrap
+    exact (failRetry_pol (hMn (s.nsess + 1)) hp i f).wrap
       (pre := [.fail i, .sess s.nsess i] ++ sfire s.cfg .connect s.nsess ++ sfire s.cfg .leave s.nsess)
       (post := sfire s.cfg .disconnect s.nsess) (by simp [onOutcome])
       (by simp [List.all_append, Obs.quiet]) (by simp [feedAll_append, feedAll_cons, feedAll_nil]) (by simp)
   | joinedLost =>
-    exact (failRetry_pol (hJ (s.nsess + 1)) (heqJ _) (hpJ _) i f).wrap (k := k)
+    exact (failRetry_pol (hJ (s.nsess + 1)) (hpJ _) i f).wrap (k := k)
       (out := (onOutcome i .joinedLost f s).2)
       (pre := .fail i :: joinedPre s.cfg s.nsess i ++ sfire s.cfg .leave s.nsess)
       (post := sfire s.cfg .disconnect s.nsess) (by simp [onOutcome])
@@ -141,7 +147,7 @@ theorem onOutcome_pol {c : Conf} {s : State} {k : Core} (h : Rel c s k) (heq : c
   | joinedLeave =>
     have hC : RelM c (joinOn i { s with nsess := s.nsess + 1 }) ((k.feed c (.join i)).feed c (.cleanEnd i)) :=
       (hJ _).core_congr rfl rfl rfl rfl rfl
-    exact (sessionDone_pol hC (heqJ _) hrJ rfl i f).wrap (k := k)
+    exact (sessionDone_pol hC hrJ rfl (hpJ _).stop i f).wrap (k := k)
       (out := (onOutcome i .joinedLeave f s).2)
       (pre := joinedPre s.cfg s.nsess i ++ [.cleanEnd i] ++ sfire s.cfg .leave s.nsess)
       (post := sfire s.cfg .disconnect s.nsess) (by simp [onOutcome])
@@ -151,7 +157,7 @@ theorem onOutcome_pol {c : Conf} {s : State} {k : Core} (h : Rel c s k) (heq : c
     split
     · have hC : RelM c (joinOn i { s with nsess := s.nsess + 1 }) ((k.feed c (.join i)).feed c (.cleanEnd i)) :=
         (hJ _).core_congr rfl rfl rfl rfl rfl
-      exact (sessionDone_pol hC (heqJ _) hrJ rfl i f).wrap (k := k)
+      exact (sessionDone_pol hC hrJ rfl (hpJ _).stop i f).wrap (k := k)
         (out := joinedPre s.cfg s.nsess i ++ [.cleanEnd i] ++ sfire s.cfg .leave s.nsess
                 ++ (sessionDone i f (joinOn i { s with nsess := s.nsess + 1 })).2 ++ sfire s.cfg .disconnect s.nsess)
         (pre := joinedPre s.cfg s.nsess i ++ [.cleanEnd i] ++ sfire s.cfg .leave s.nsess)
@@ -164,50 +170,51 @@ theorem onOutcome_pol {c : Conf} {s : State} {k : Core} (h : Rel c s k) (heq : c
     refine ⟨specAll_quiet _ chkPolarity_ad _ _ _ ((all_quiet_iff _).mp (by simp)), ?_⟩
     simpa using hpJ (s.nsess + 1)
 
-theorem onSess_pol {c : Conf} {s : State} {k : Core} (h : Rel c s k) (heq : c.resetOnJoin = s.cfg.hasMain)
-    (hp : PolInv s.done k) (e : SessEv) (f : Bool) : PolOK c k (onSess e f s) := by
+theorem onSess_pol {c : Conf} {s : State} {k : Core} (h : Rel c s k)
+    (hp : PolInv s.done s.stopping k) (e : SessEv) (f : Bool) : PolOK c k (onSess e f s) := by
   unfold onSess
   split
   · next i hph =>
     obtain ⟨_, hcur⟩ := phase_conn h (Or.inr (Or.inl hph))
-    exact (failRetry_pol (h.toM hcur) heq hp i f).wrap (pre := .fail i :: sfire s.cfg .leave (s.nsess - 1))
+    exact (failRetry_pol (h.toM hcur) hp i f).wrap (pre := .fail i :: sfire s.cfg .leave (s.nsess - 1))
       (post := sfire s.cfg .disconnect (s.nsess - 1)) (by simp)
       (by simp [Obs.quiet]) (by simp [feedAll_cons]) (by simp)
   · next i hph =>
     obtain ⟨_, hcur⟩ := phase_conn h (Or.inr (Or.inr hph))
-    exact (failRetry_pol (h.toM hcur) heq hp i f).wrap (pre := .fail i :: sfire s.cfg .leave (s.nsess - 1))
+    exact (failRetry_pol (h.toM hcur) hp i f).wrap (pre := .fail i :: sfire s.cfg .leave (s.nsess - 1))
       (post := sfire s.cfg .disconnect (s.nsess - 1)) (by simp)
       (by simp [Obs.quiet]) (by simp [feedAll_cons]) (by simp)
   · next i hph =>
     obtain ⟨_, hcur⟩ := phase_conn h (Or.inr (Or.inl hph))
     have hC : RelM c s (k.feed c (.cleanEnd i)) := (h.toM hcur).core_congr rfl rfl rfl rfl rfl
-    exact (sessionDone_pol hC heq hp.raise rfl i f).wrap (pre := [.cleanEnd i] ++ sfire s.cfg .leave (s.nsess - 1))
+    exact (sessionDone_pol hC hp.raise rfl hp.stop i f).wrap (pre := [.cleanEnd i] ++ sfire s.cfg .leave (s.nsess - 1))
       (post := sfire s.cfg .disconnect (s.nsess - 1)) (by simp)
       (by simp [Obs.quiet]) (by simp [feedAll_cons, feedAll_append, feedAll_nil]) (by simp)
   · next i hph =>
     obtain ⟨_, hcur⟩ := phase_conn h (Or.inr (Or.inr hph))
     have hC : RelM c s (k.feed c (.cleanEnd i)) := (h.toM hcur).core_congr rfl rfl rfl rfl rfl
-    exact (sessionDone_pol hC heq hp.raise rfl i f).wrap (pre := [.cleanEnd i] ++ sfire s.cfg .leave (s.nsess - 1))
+    exact (sessionDone_pol hC hp.raise rfl hp.stop i f).wrap (pre := [.cleanEnd i] ++ sfire s.cfg .leave (s.nsess - 1))
       (post := sfire s.cfg .disconnect (s.nsess - 1)) (by simp)
       (by simp [Obs.quiet]) (by simp [feedAll_cons, feedAll_append, feedAll_nil]) (by simp)
   · exact PolOK.stutter hp
 
-theorem onStop_pol {c : Conf} {s : State} {k : Core} (_hd : k.done = s.done) (hp : PolInv s.done k) :
+theorem onStop_pol {c : Conf} {s : State} {k : Core} (_hd : k.done = s.done) (hp : PolInv s.done s.stopping k) :
     PolOK c k (onStop s) := by
-  have hps : PolInv s.done (k.feed c .stop) := ⟨hp.raise, hp.clean⟩
+  have hps : PolInv s.done true (k.feed c .stop) := ⟨hp.raise, hp.clean, fun _ => rfl⟩
   unfold onStop
   split
   · exact PolOK.stutter hp
   · unfold Comp.setDone
+    dsimp only
     cases hdn : s.done with
     | none =>
       exact ⟨by simp [specAll, finTrue, chkPolarity, Core.feed],
-             ⟨rfl, fun h => by simp [feedAll, Core.feed] at h⟩⟩
+             ⟨rfl, fun h => by simp [feedAll, Core.feed] at h, fun _ => by simp [feedAll, Core.feed]⟩⟩
     | some b => exact ⟨by simp [specAll, finTrue, chkPolarity], by simpa [feedAll, hdn] using hps⟩
   · cases hdn : s.done with
     | none =>
       exact ⟨by simp [specAll, finTrue, chkPolarity, Core.feed],
-             ⟨rfl, fun h => by simp [feedAll, Core.feed] at h⟩⟩
+             ⟨rfl, fun h => by simp [feedAll, Core.feed] at h, fun _ => by simp [feedAll, Core.feed]⟩⟩
     | some b => exact ⟨by simp [specAll, finTrue, chkPolarity], by simpa [feedAll, hdn] using hps⟩
   · exact ⟨by simp [specAll, finTrue, chkPolarity], by simpa [feedAll] using hps⟩
   · exact ⟨by simp [specAll, finTrue, chkPolarity], by simpa [feedAll] using hps⟩
@@ -217,15 +224,15 @@ def Event.noRaise : Event → Bool
   | .outcome .mainRaises _ => false
   | _ => true
 
-theorem step_pol {c : Conf} {s : State} {k : Core} (h : Rel c s k) (heq : c.resetOnJoin = s.cfg.hasMain)
-    (hp : PolInv s.done k) (e : Event) (hno : e.noRaise = true) : PolOK c k (step s e) := by
+theorem step_pol {c : Conf} {s : State} {k : Core} (h : Rel c s k)
+    (hp : PolInv s.done s.stopping k) (e : Event) (hno : e.noRaise = true) : PolOK c k (step s e) := by
   cases e with
   | start =>
     simp only [step]
     split
     · next hph =>
       have := h.ph; unfold PhaseOK at this; rw [hph] at this
-      exact tc_pol (h.toM this) heq hp
+      exact tc_pol (h.toM this) hp
     · exact PolOK.stutter hp
   | delayElapsed =>
     simp only [step]
@@ -237,22 +244,22 @@ theorem step_pol {c : Conf} {s : State} {k : Core} (h : Rel c s k) (heq : c.rese
     simp only [step]
     split
     · next i hph =>
-      refine onOutcome_pol h heq hp i hph o f ?_
+      refine onOutcome_pol h hp i hph o f ?_
       intro ho; subst ho; simp [Event.noRaise] at hno
     · exact PolOK.stutter hp
-  | sess e f => exact onSess_pol h heq hp e f
+  | sess e f => exact onSess_pol h hp e f
 
-theorem run_pol {c : Conf} {s : State} {k : Core} (h : Rel c s k) (heq : c.resetOnJoin = s.cfg.hasMain)
-    (hp : PolInv s.done k) (es : List Event) (hno : ∀ e ∈ es, e.noRaise = true) :
+theorem run_pol {c : Conf} {s : State} {k : Core} (h : Rel c s k)
+    (hp : PolInv s.done s.stopping k) (es : List Event) (hno : ∀ e ∈ es, e.noRaise = true) :
     specAll chkPolarity finTrue c k false (run s es).2 = true
-      ∧ PolInv (run s es).1.done (feedAll c k (run s es).2)
+      ∧ PolInv (run s es).1.done (run s es).1.stopping (feedAll c k (run s es).2)
       ∧ (feedAll c k (run s es).2).done = (run s es).1.done := by
   induction es generalizing s k with
   | nil => exact ⟨rfl, hp, h.t.done_eq⟩
   | cons e es ih =>
     have h1 := step_ok h e
-    have p1 := step_pol h heq hp e (hno e (by simp))
-    have h2 := ih h1.rel (by rw [step_cfg]; exact heq) p1.inv (fun e' he' => hno e' (by simp [he']))
+    have p1 := step_pol h hp e (hno e (by simp))
+    have h2 := ih h1.rel p1.inv (fun e' he' => hno e' (by simp [he']))
     simp only [run]
     refine ⟨?_, ?_, ?_⟩
     · rw [specAll_append, p1.chk, h2.1]; rfl
